@@ -50,4 +50,17 @@ def bisect (g : Rat → Rat) (Q tol : Rat) : Nat → Rat → Rat → Option Rat
       (if g r < g (r + Q) then bisect g Q tol f lo r else bisect g Q tol f r hi)
     else some r
 
+/-- `G` given as a table of values for `y = lo, lo+1, …`; outside the table it is extended by a large value
+(the searches never leave the table on the instances the harness builds). -/
+def tableFn (lo : Int) (vals : List Rat) : Int → Rat := fun y =>
+  if y < lo then 1000000000 else vals.getD (y - lo).toNat 1000000000
+
+/-- Executable check that the table is non-increasing up to `S`, non-decreasing from `S` on, and below the
+out-of-table value. -/
+def tableUnimodalb (lo : Int) (vals : List Rat) (S : Int) : Bool :=
+  decide (lo ≤ S) && decide (S < lo + (vals.length : Int)) && vals.all (fun v => decide (v ≤ 1000000000)) &&
+  (List.range (vals.length - 1)).all fun i =>
+    if lo + (i : Int) < S then decide (vals.getD (i + 1) 0 ≤ vals.getD i 0)
+    else decide (vals.getD i 0 ≤ vals.getD (i + 1) 0)
+
 end Stockpyl.RQ
